@@ -352,6 +352,39 @@ def slot_memos(ctx, fn, ps):
     return out
 
 
+def ctor_keeps_argument(ctx, rule, cname, p, fld, what, key):
+    """after construction (accepting path p of the constructor) the logical field `fld` holds the constructor argument of that name, unmodified: written as
+    such - or kept somewhere else (a helper object, a table of settings) and read back through a property of that name, in which case the property is asked"""
+    w = heap_writes(p, fld)
+    if w and w[-1].value == V(fld) and all(x.value == V(fld) or (x.value is not None and x.value[0] in ('const', 'num', 'str')) for x in w):
+        # (a placeholder written first - None by a helper object's own constructor - and then the argument: what the field holds after construction is the argument)
+        ctx.holds(rule, what, w[-1].site)
+        return True
+    cls = ctx.cls(cname)
+    getter = cls.lookup(fld) if cls is not None else None
+    if not w and getter is not None and getter.is_property:
+        try:
+            from .symex import State
+            init = cls.lookup('__init__')
+            ips = [q for q in SymEx(ctx.M, policy=default_policy).run(init, dyn=cls) if q.outcome in ('fall', 'return')]
+            vals = set()
+            for ip in ips[:4]:
+                st_ = State()
+                st_.heap = dict(ip.heap)
+                vals |= {q.value for q in SymEx(ctx.M, policy=default_policy).run(getter, self_term=V('self'), state=st_, dyn=cls) if q.outcome == 'return'}
+        except Undecided:
+            vals = set()
+        if vals == {V(fld)}:
+            ctx.holds(rule, what + ' (read back through the property)', getter.site())
+            return True
+        if len(vals) == 1 and not any(s_[0] in ('attr', 'sub', 'call', 'havoc', 'lc') for v_ in vals for s_ in T.subterms(v_)):
+            ctx.violation(rule, what, getter.site(), 'after construction the property answers %s' % fmt(next(iter(vals)))[:80], key=key)
+            return False
+        ctx.undecided(rule, what, getter.site(), 'kept outside a field of that name: %s' % sorted(fmt(v_)[:60] for v_ in vals)[:2])
+        return None
+    ctx.violation(rule, what, w[0].site if w else None, [fmt(x.value)[:80] for x in w] if w else 'never written by the constructor', key=key)
+    return False
+
 def at_construction(M, w, attr, depth=0):
     """the writer site w of logical field `attr` runs only while objects are constructed: it sits in a constructor, in a private helper only constructors call,
     or in a storage step (a method of a helper object such as set_x) every call site of which is a constructor, such a helper, or the property setter of `attr`
